@@ -353,6 +353,894 @@ theorem inv_step (st : St) (op : Op) (hw : NoWrong st) :
   | start i gl gp => exact inv_start { st with events := [] } i gl gp hw' rfl
   | ans i a => exact inv_answer { st with events := [] } i a hw' rfl
 
+/-! ## structural invariant; who signs -/
+
+def waitingLock : Phase → Bool
+  | .waitLock => true
+  | .waitRollback _ => true
+  | _ => false
+
+def preAccept : Phase → Bool
+  | .idle | .waitChain | .reqL | .waitAcct | .reqG | .waitLock | .reqP | .reqE _ | .reqB _ => true
+  | _ => false
+
+structure W (P : Nat → Prop) (st : St) (cw aw : List Nat) : Prop where
+  lq : ∀ j, st.lockQ.count j = if waitingLock (getSub st j).phase then 1 else 0
+  cq : ∀ j, (st.chain.waiters ++ cw).count j = if (getSub st j).phase = .waitChain then 1 else 0
+  aq : ∀ j, (st.acct.waiters ++ aw).count j = if (getSub st j).phase = .waitAcct then 1 else 0
+  an : ∀ j, preAccept (getSub st j).phase = true → (getSub st j).acc = none
+  sg : ∀ j k tx, Event.sign j k tx ∈ st.events → P j
+  lk : ∀ j, (getSub st j).acc = none → P j
+
+/-- one submission `i` changes its record (and possibly queue membership); everything else about
+    the submissions is untouched -/
+theorem W.retarget {P st cw aw} (h : W P st cw aw) (i : Nat) (s' : Sub) (st' : St) (cw' aw' : List Nat)
+    (hsubs : st'.subs = setSubL st.subs i s')
+    (hL : ∀ j, j ≠ i → st'.lockQ.count j = st.lockQ.count j)
+    (hLi : st'.lockQ.count i = if waitingLock s'.phase then 1 else 0)
+    (hC : ∀ j, j ≠ i → (st'.chain.waiters ++ cw').count j = (st.chain.waiters ++ cw).count j)
+    (hCi : (st'.chain.waiters ++ cw').count i = if s'.phase = .waitChain then 1 else 0)
+    (hA : ∀ j, j ≠ i → (st'.acct.waiters ++ aw').count j = (st.acct.waiters ++ aw).count j)
+    (hAi : (st'.acct.waiters ++ aw').count i = if s'.phase = .waitAcct then 1 else 0)
+    (hacc : preAccept s'.phase = true → s'.acc = none)
+    (hlk : s'.acc = none → P i)
+    (hE : ∀ j k tx, Event.sign j k tx ∈ st'.events → Event.sign j k tx ∈ st.events ∨ (j = i ∧ P i)) :
+    W P st' cw' aw' := by
+  have hget : ∀ j, getSub st' j = if j = i then s' else getSub st j := by
+    intro j
+    have : getSub st' j = getSub (setSub st i s') j := by
+      simp [getSub, setSub, hsubs]
+    rw [this, getSub_setSub]
+  constructor
+  · intro j
+    rw [hget]
+    by_cases hj : j = i
+    · subst hj; simpa using hLi
+    · simpa [hj, hL j hj] using h.lq j
+  · intro j
+    rw [hget]
+    by_cases hj : j = i
+    · subst hj; simpa using hCi
+    · simpa [hj, hC j hj] using h.cq j
+  · intro j
+    rw [hget]
+    by_cases hj : j = i
+    · subst hj; simpa using hAi
+    · simpa [hj, hA j hj] using h.aq j
+  · intro j
+    rw [hget]
+    by_cases hj : j = i
+    · subst hj; simpa using hacc
+    · simpa [hj] using h.an j
+  · intro j k tx hm
+    rcases hE j k tx hm with h1 | ⟨hji, h2⟩
+    · exact h.sg j k tx h1
+    · exact hji ▸ h2
+  · intro j
+    rw [hget]
+    by_cases hj : j = i
+    · subst hj; simpa using hlk
+    · simpa [hj] using h.lk j
+
+theorem W.congr {P st cw aw} (h : W P st cw aw) (st' : St) (hs : st'.subs = st.subs)
+    (he : st'.events = st.events) (hl : st'.lockQ = st.lockQ) (hc : st'.chain.waiters = st.chain.waiters)
+    (ha : st'.acct.waiters = st.acct.waiters) : W P st' cw aw := by
+  have hg : ∀ j, getSub st' j = getSub st j := fun j => by simp [getSub, hs]
+  exact ⟨fun j => by rw [hl, hg]; exact h.lq j, fun j => by rw [hc, hg]; exact h.cq j,
+    fun j => by rw [ha, hg]; exact h.aq j, fun j => by rw [hg]; exact h.an j,
+    fun j k tx hm => h.sg j k tx (by rwa [he] at hm), fun j => by rw [hg]; exact h.lk j⟩
+
+/-- a state that differs from `st` only outside the submission table and the event list -/
+structure Frame (st stm : St) (i : Nat) (cw aw cw' aw' : List Nat) : Prop where
+  subs : stm.subs = st.subs
+  events : stm.events = st.events
+  hL : ∀ j, j ≠ i → stm.lockQ.count j = st.lockQ.count j
+  hLi : stm.lockQ.count i = 0
+  hC : ∀ j, j ≠ i → (stm.chain.waiters ++ cw').count j = (st.chain.waiters ++ cw).count j
+  hCi : (stm.chain.waiters ++ cw').count i = 0
+  hA : ∀ j, j ≠ i → (stm.acct.waiters ++ aw').count j = (st.acct.waiters ++ aw).count j
+  hAi : (stm.acct.waiters ++ aw').count i = 0
+
+theorem Frame.sub_eq {st stm i cw aw cw' aw'} (f : Frame st stm i cw aw cw' aw') (j : Nat) :
+    getSub stm j = getSub st j := by simp [getSub, f.subs]
+
+theorem signTx_shape (st : St) (i gas fee : Nat) :
+    ∃ T K, signTx st i gas fee =
+      ({ st with txs := T, events := st.events ++ [.sign i K ⟨i, st.seq, gas, fee⟩] }, K) := by
+  unfold signTx txId
+  simp only []
+  split
+  · exact ⟨st.txs, _, rfl⟩
+  · exact ⟨_, _, rfl⟩
+
+/-- what `csLoop` does to the state: the phase of `i` becomes a request phase inside the critical
+    section, signatures (if any) are by `i` -/
+theorem csLoop_shape (st : St) (i : Nat) :
+    ∃ p T E, csLoop st i = { st with subs := setSubL st.subs i { getSub st i with phase := p }, txs := T, events := E } ∧
+      (p = .reqP ∨ (∃ k, p = .reqB k) ∨ (∃ k, p = .reqE k)) ∧
+      (∀ j k tx, Event.sign j k tx ∈ E → Event.sign j k tx ∈ st.events ∨ j = i) := by
+  unfold csLoop
+  simp only []
+  split
+  · rename_i g q _ _
+    unfold signAndBroadcast
+    obtain ⟨T, K, hs⟩ := signTx_shape st i g (feeOf g q)
+    rw [hs]
+    refine ⟨.reqB K, T, _, rfl, Or.inr (Or.inl ⟨K, rfl⟩), ?_⟩
+    intro j k tx hm
+    rcases List.mem_append.mp hm with h | h
+    · exact Or.inl h
+    · simp at h; exact Or.inr h.1
+  · exact ⟨.reqP, st.txs, st.events, rfl, Or.inl rfl, fun j k tx hm => Or.inl hm⟩
+  · obtain ⟨T, K, hs⟩ := signTx_shape st i 0 1
+    rw [hs]
+    refine ⟨.reqE K, T, _, rfl, Or.inr (Or.inr ⟨K, rfl⟩), ?_⟩
+    intro j k tx hm
+    rcases List.mem_append.mp hm with h | h
+    · exact Or.inl h
+    · simp at h; exact Or.inr h.1
+
+theorem W.cs {P st cw aw} (h : W P st cw aw) (stm : St) (i : Nat) (cw' aw' : List Nat)
+    (f : Frame st stm i cw aw cw' aw') (hacc : (getSub st i).acc = none) :
+    W P (csLoop stm i) cw' aw' := by
+  obtain ⟨p, T, E, heq, hp, hE⟩ := csLoop_shape stm i
+  rw [heq]
+  have hp1 : waitingLock p = false := by rcases hp with rfl | ⟨k, rfl⟩ | ⟨k, rfl⟩ <;> rfl
+  have hp2 : p ≠ .waitChain := by rcases hp with rfl | ⟨k, rfl⟩ | ⟨k, rfl⟩ <;> simp
+  have hp3 : p ≠ .waitAcct := by rcases hp with rfl | ⟨k, rfl⟩ | ⟨k, rfl⟩ <;> simp
+  apply h.retarget i { getSub stm i with phase := p } _ cw' aw'
+  · simp [f.subs]
+  · exact f.hL
+  · simpa [hp1] using f.hLi
+  · exact f.hC
+  · simpa [hp2] using f.hCi
+  · exact f.hA
+  · simpa [hp3] using f.hAi
+  · intro _; simpa [f.sub_eq] using hacc
+  · intro _; exact h.lk i hacc
+  · intro j k tx hm
+    rcases hE j k tx hm with h1 | h1
+    · exact Or.inl (by simpa [f.events] using h1)
+    · exact Or.inr ⟨h1, h.lk i hacc⟩
+
+theorem W.fin {P st cw aw} (h : W P st cw aw) (stm : St) (i : Nat) (r : Res) (cw' aw' : List Nat)
+    (f : Frame st stm i cw aw cw' aw') : W P (finish stm i r) cw' aw' := by
+  apply h.retarget i { getSub stm i with phase := .done r } _ cw' aw'
+  · simp [finish, emit, setPhase, setSub, f.subs]
+  · exact f.hL
+  · simpa [finish, emit, setPhase, setSub, waitingLock] using f.hLi
+  · exact f.hC
+  · simpa [finish, emit, setPhase, setSub] using f.hCi
+  · exact f.hA
+  · simpa [finish, emit, setPhase, setSub] using f.hAi
+  · intro hp; simp [preAccept] at hp
+  · intro ha; exact h.lk i (by simpa [f.sub_eq] using ha)
+  · intro j k tx hm
+    simp only [finish, emit, setPhase, setSub, List.mem_append, List.mem_singleton] at hm
+    rcases hm with h1 | h1
+    · exact Or.inl (by simpa [f.events] using h1)
+    · cases h1
+
+theorem Frame.refl_free {P st cw aw} (h : W P st cw aw) (i : Nat)
+    (h1 : waitingLock (getSub st i).phase = false) (h2 : (getSub st i).phase ≠ .waitChain)
+    (h3 : (getSub st i).phase ≠ .waitAcct) : Frame st st i cw aw cw aw :=
+  ⟨rfl, rfl, fun _ _ => rfl, by simpa [h1] using h.lq i, fun _ _ => rfl, by simpa [h2] using h.cq i,
+   fun _ _ => rfl, by simpa [h3] using h.aq i⟩
+
+theorem W.lock {P st cw aw} (h : W P st cw aw) (stm : St) (i : Nat) (cw' aw' : List Nat)
+    (f : Frame st stm i cw aw cw' aw') (hacc : (getSub st i).acc = none) :
+    W P (enterLock stm i) cw' aw' := by
+  unfold enterLock
+  split
+  · exact h.cs { stm with lockHeld := some i } i cw' aw'
+      ⟨f.subs, f.events, f.hL, f.hLi, f.hC, f.hCi, f.hA, f.hAi⟩ hacc
+  · apply h.retarget i { getSub stm i with phase := .waitLock } _ cw' aw'
+    · simp [setPhase, setSub, f.subs, getSub]
+    · intro j hj
+      have : List.count j [i] = 0 := by simp [List.count_singleton]; exact fun e => hj e.symm
+      simp [setPhase, setSub, List.count_append, this, f.hL j hj]
+    · simp [setPhase, setSub, List.count_append, f.hLi, waitingLock]
+    · exact f.hC
+    · simpa [setPhase, setSub] using f.hCi
+    · exact f.hA
+    · simpa [setPhase, setSub] using f.hAi
+    · intro _; simpa [f.sub_eq] using hacc
+    · intro _; exact h.lk i hacc
+    · intro j k tx hm; exact Or.inl (by simpa [setPhase, setSub, f.events] using hm)
+
+theorem W.acct {P st cw aw} (h : W P st cw aw) (stm : St) (i : Nat) (cw' aw' : List Nat)
+    (f : Frame st stm i cw aw cw' aw') (hacc : (getSub st i).acc = none) :
+    W P (enterAcct stm i) cw' aw' := by
+  unfold enterAcct
+  split
+  · exact h.lock stm i cw' aw' f hacc
+  · split
+    · apply h.retarget i { getSub stm i with phase := .waitAcct } _ cw' aw'
+      · simp [setPhase, setSub, f.subs, getSub]
+      · exact f.hL
+      · simpa [setPhase, setSub, waitingLock] using f.hLi
+      · exact f.hC
+      · simpa [setPhase, setSub] using f.hCi
+      · intro j hj
+        have : List.count j [i] = 0 := by simp [List.count_singleton]; exact fun e => hj e.symm
+        have := f.hA j hj
+        simp only [setPhase, setSub, List.count_append] at this ⊢
+        omega
+      · have := f.hAi
+        simp only [setPhase, setSub, List.count_append, List.count_singleton] at this ⊢
+        simp; omega
+      · intro _; simpa [f.sub_eq] using hacc
+      · intro _; exact h.lk i hacc
+      · intro j k tx hm; exact Or.inl (by simpa [setPhase, setSub, f.events] using hm)
+    · apply h.retarget i { getSub stm i with phase := .reqG } _ cw' aw'
+      · simp [setPhase, setSub, f.subs, getSub]
+      · exact f.hL
+      · simpa [setPhase, setSub, waitingLock] using f.hLi
+      · exact f.hC
+      · simpa [setPhase, setSub] using f.hCi
+      · exact f.hA
+      · simpa [setPhase, setSub] using f.hAi
+      · intro _; simpa [f.sub_eq] using hacc
+      · intro _; exact h.lk i hacc
+      · intro j k tx hm; exact Or.inl (by simpa [setPhase, setSub, f.events] using hm)
+
+theorem W.chainEnter {P st cw aw} (h : W P st cw aw) (stm : St) (i : Nat) (cw' aw' : List Nat)
+    (f : Frame st stm i cw aw cw' aw') (hacc : (getSub st i).acc = none) :
+    W P (enterChain stm i) cw' aw' := by
+  unfold enterChain
+  split
+  · exact h.acct stm i cw' aw' f hacc
+  · split
+    · apply h.retarget i { getSub stm i with phase := .waitChain } _ cw' aw'
+      · simp [setPhase, setSub, f.subs, getSub]
+      · exact f.hL
+      · simpa [setPhase, setSub, waitingLock] using f.hLi
+      · intro j hj
+        have : List.count j [i] = 0 := by simp [List.count_singleton]; exact fun e => hj e.symm
+        have := f.hC j hj
+        simp only [setPhase, setSub, List.count_append] at this ⊢
+        omega
+      · have := f.hCi
+        simp only [setPhase, setSub, List.count_append, List.count_singleton] at this ⊢
+        simp; omega
+      · exact f.hA
+      · simpa [setPhase, setSub] using f.hAi
+      · intro _; simpa [f.sub_eq] using hacc
+      · intro _; exact h.lk i hacc
+      · intro j k tx hm; exact Or.inl (by simpa [setPhase, setSub, f.events] using hm)
+    · apply h.retarget i { getSub stm i with phase := .reqL } _ cw' aw'
+      · simp [setPhase, setSub, f.subs, getSub]
+      · exact f.hL
+      · simpa [setPhase, setSub, waitingLock] using f.hLi
+      · exact f.hC
+      · simpa [setPhase, setSub] using f.hCi
+      · exact f.hA
+      · simpa [setPhase, setSub] using f.hAi
+      · intro _; simpa [f.sub_eq] using hacc
+      · intro _; exact h.lk i hacc
+      · intro j k tx hm; exact Or.inl (by simpa [setPhase, setSub, f.events] using hm)
+
+theorem W.relLock {P cw aw} (fuel : Nat) {st : St} (h : W P st cw aw) : W P (releaseLock fuel st) cw aw := by
+  induction fuel generalizing st with
+  | zero => exact ⟨h.lq, h.cq, h.aq, h.an, h.sg, h.lk⟩
+  | succ fuel ih =>
+    unfold releaseLock
+    split
+    · exact ⟨h.lq, h.cq, h.aq, h.an, h.sg, h.lk⟩
+    · rename_i j q hq
+      simp only []
+      have hj := h.lq j
+      rw [hq, List.count_cons_self] at hj
+      have hwait : waitingLock (getSub st j).phase = true := by
+        cases hw : waitingLock (getSub st j).phase
+        · rw [hw] at hj; simp at hj
+        · rfl
+      have hq0 : q.count j = 0 := by rw [hwait] at hj; simpa using hj
+      have hc : (getSub st j).phase ≠ .waitChain := by intro e; rw [e] at hwait; cases hwait
+      have ha : (getSub st j).phase ≠ .waitAcct := by intro e; rw [e] at hwait; cases hwait
+      have fr : ∀ sq, Frame st { st with lockHeld := some j, lockQ := q, seq := sq } j cw aw cw aw := by
+        intro sq
+        refine ⟨rfl, rfl, ?_, hq0, fun _ _ => rfl, by simpa [hc] using h.cq j, fun _ _ => rfl,
+          by simpa [ha] using h.aq j⟩
+        intro k hk
+        show q.count k = st.lockQ.count k
+        rw [hq, List.count_cons_of_ne (fun e => hk e.symm)]
+      split
+      · rename_i c hc'
+        exact ih (h.fin _ j (.rejected c) cw aw (fr _))
+      · rename_i hnr
+        have hph : (getSub st j).phase = .waitLock := by
+          have hnr' : ∀ c, (getSub st j).phase ≠ .waitRollback c := by
+            intro c e; exact hnr c (by simpa [getSub] using e)
+          cases hp : (getSub st j).phase <;> simp_all [waitingLock]
+        exact h.cs _ j cw aw (fr st.seq) (h.an j (by rw [hph]; rfl))
+
+theorem W.rel {P cw aw} {st : St} (h : W P st cw aw) : W P (release st) cw aw := h.relLock _
+
+theorem W.foldAcct {P aw} (ws : List Nat) {st : St} (h : W P st ws aw) : W P (ws.foldl enterAcct st) [] aw := by
+  induction ws generalizing st with
+  | nil => exact h
+  | cons w ws ih =>
+    have hc := h.cq w
+    simp only [List.count_append, List.count_cons_self] at hc
+    have hph : (getSub st w).phase = .waitChain := by
+      by_cases e : (getSub st w).phase = .waitChain
+      · exact e
+      · simp [e] at hc
+    simp only [hph, ↓reduceIte] at hc
+    apply ih
+    apply h.acct st w ws aw _ (h.an w (by rw [hph]; rfl))
+    refine ⟨rfl, rfl, fun _ _ => rfl, by simpa [hph, waitingLock] using h.lq w, ?_, ?_, fun _ _ => rfl,
+      by simpa [hph] using h.aq w⟩
+    · intro j hj
+      simp [List.count_append, List.count_cons_of_ne (fun e => hj e.symm)]
+    · simp only [List.count_append]; omega
+
+theorem W.foldLock {P} (ws : List Nat) {st : St} (h : W P st [] ws) : W P (ws.foldl enterLock st) [] [] := by
+  induction ws generalizing st with
+  | nil => exact h
+  | cons w ws ih =>
+    have hc := h.aq w
+    simp only [List.count_append, List.count_cons_self] at hc
+    have hph : (getSub st w).phase = .waitAcct := by
+      by_cases e : (getSub st w).phase = .waitAcct
+      · exact e
+      · simp [e] at hc
+    simp only [hph, ↓reduceIte] at hc
+    apply ih
+    apply h.lock st w [] ws _ (h.an w (by rw [hph]; rfl))
+    refine ⟨rfl, rfl, fun _ _ => rfl, by simpa [hph, waitingLock] using h.lq w, fun _ _ => rfl,
+      by simpa [hph] using h.cq w, ?_, ?_⟩
+    · intro j hj
+      simp [List.count_append, List.count_cons_of_ne (fun e => hj e.symm)]
+    · simp only [List.count_append]; omega
+
+/-- a submission with a pending node request is in no queue -/
+theorem W.freeOf {P st cw aw} (h : W P st cw aw) (i : Nat)
+    (h1 : waitingLock (getSub st i).phase = false) (h2 : (getSub st i).phase ≠ .waitChain)
+    (h3 : (getSub st i).phase ≠ .waitAcct) :
+    st.lockQ.count i = 0 ∧ (st.chain.waiters ++ cw).count i = 0 ∧ (st.acct.waiters ++ aw).count i = 0 :=
+  ⟨by simpa [h1] using h.lq i, by simpa [h2] using h.cq i, by simpa [h3] using h.aq i⟩
+
+theorem W.onL {P} {st : St} (h : W P st [] []) (i : Nat) (a : Ans) (hp : (getSub st i).phase = .reqL) :
+    W P (ansL st i a) [] [] := by
+  obtain ⟨f1, f2, f3⟩ := h.freeOf i (by rw [hp]; rfl) (by rw [hp]; simp) (by rw [hp]; simp)
+  have hacc := h.an i (by rw [hp]; rfl)
+  unfold ansL
+  split
+  · apply W.foldAcct
+    apply h.acct { st with chain := { ready := true, busy := false, waiters := [] } } i st.chain.waiters [] _ hacc
+    exact ⟨rfl, rfl, fun _ _ => rfl, f1, fun j _ => by simp, by simpa using f2, fun _ _ => rfl, f3⟩
+  · simp only []
+    have hf : W P (finish st i .tonic) [] [] :=
+      h.fin st i .tonic [] [] ⟨rfl, rfl, fun _ _ => rfl, f1, fun _ _ => rfl, f2, fun _ _ => rfl, f3⟩
+    split
+    · exact hf.congr _ rfl rfl rfl rfl rfl
+    · rename_i w ws hw
+      have hc := hf.cq w
+      have hw' : (finish st i .tonic).chain.waiters = w :: ws := hw
+      simp only [hw', List.append_nil, List.count_cons_self] at hc
+      have hph : (getSub (finish st i .tonic) w).phase = .waitChain := by
+        by_cases e : (getSub (finish st i .tonic) w).phase = .waitChain
+        · exact e
+        · simp [e] at hc
+      simp only [hph, ↓reduceIte] at hc
+      apply hf.retarget w { getSub (finish st i .tonic) w with phase := .reqL } _ [] []
+      · simp [setPhase, setSub, getSub]
+      · intro _ _; rfl
+      · simpa [setPhase, setSub, waitingLock, hph] using hf.lq w
+      · intro j hj
+        simp [setPhase, setSub, hw', List.count_cons_of_ne (fun e => hj e.symm)]
+      · simp only [setPhase, setSub, List.append_nil]; simp; omega
+      · intro _ _; rfl
+      · simpa [setPhase, setSub, hph] using hf.aq w
+      · intro _; exact hf.an w (by rw [hph]; rfl)
+      · intro _; exact hf.lk w (hf.an w (by rw [hph]; rfl))
+      · intro j k tx hm; exact Or.inl (by simpa [setPhase, setSub] using hm)
+
+theorem W.frameFree {P st} (h : W P st [] []) (i : Nat)
+    (h1 : waitingLock (getSub st i).phase = false) (h2 : (getSub st i).phase ≠ .waitChain)
+    (h3 : (getSub st i).phase ≠ .waitAcct) (stm : St) (hs : stm.subs = st.subs) (he : stm.events = st.events)
+    (hl : stm.lockQ = st.lockQ) (hc : stm.chain.waiters = st.chain.waiters)
+    (ha : stm.acct.waiters = st.acct.waiters) : Frame st stm i [] [] [] [] := by
+  obtain ⟨f1, f2, f3⟩ := h.freeOf i h1 h2 h3
+  exact ⟨hs, he, fun _ _ => by rw [hl], by rw [hl]; exact f1, fun _ _ => by rw [hc], by rw [hc]; exact f2,
+    fun _ _ => by rw [ha], by rw [ha]; exact f3⟩
+
+theorem W.onG {P} {st : St} (h : W P st [] []) (i : Nat) (a : Ans) (hp : (getSub st i).phase = .reqG) :
+    W P (ansG st i a) [] [] := by
+  obtain ⟨f1, f2, f3⟩ := h.freeOf i (by rw [hp]; rfl) (by rw [hp]; simp) (by rw [hp]; simp)
+  have hacc := h.an i (by rw [hp]; rfl)
+  unfold ansG
+  split
+  · rename_i n
+    apply W.foldLock
+    apply h.lock { st with seq := n, acct := { ready := true, busy := false, waiters := [] } } i [] st.acct.waiters _ hacc
+    exact ⟨rfl, rfl, fun _ _ => rfl, f1, fun _ _ => rfl, f2, fun j _ => by simp, by simpa using f3⟩
+  · simp only []
+    have hf : W P (finish st i .tonic) [] [] :=
+      h.fin st i .tonic [] [] ⟨rfl, rfl, fun _ _ => rfl, f1, fun _ _ => rfl, f2, fun _ _ => rfl, f3⟩
+    split
+    · exact hf.congr _ rfl rfl rfl rfl rfl
+    · rename_i w ws hw
+      have hc := hf.aq w
+      have hw' : (finish st i .tonic).acct.waiters = w :: ws := hw
+      simp only [hw', List.append_nil, List.count_cons_self] at hc
+      have hph : (getSub (finish st i .tonic) w).phase = .waitAcct := by
+        by_cases e : (getSub (finish st i .tonic) w).phase = .waitAcct
+        · exact e
+        · simp [e] at hc
+      simp only [hph, ↓reduceIte] at hc
+      apply hf.retarget w { getSub (finish st i .tonic) w with phase := .reqG } _ [] []
+      · simp [setPhase, setSub, getSub]
+      · intro _ _; rfl
+      · simpa [setPhase, setSub, waitingLock, hph] using hf.lq w
+      · intro _ _; rfl
+      · simpa [setPhase, setSub, hph] using hf.cq w
+      · intro j hj
+        simp [setPhase, setSub, hw', List.count_cons_of_ne (fun e => hj e.symm)]
+      · simp only [setPhase, setSub, List.append_nil]; simp; omega
+      · intro _; exact hf.an w (by rw [hph]; rfl)
+      · intro _; exact hf.lk w (hf.an w (by rw [hph]; rfl))
+      · intro j k tx hm; exact Or.inl (by simpa [setPhase, setSub] using hm)
+
+theorem W.sab {P} {st : St} (h : W P st [] []) (i gas q : Nat)
+    (h1 : waitingLock (getSub st i).phase = false) (h2 : (getSub st i).phase ≠ .waitChain)
+    (h3 : (getSub st i).phase ≠ .waitAcct) (hacc : (getSub st i).acc = none) :
+    W P (signAndBroadcast st i gas q) [] [] := by
+  obtain ⟨f1, f2, f3⟩ := h.freeOf i h1 h2 h3
+  unfold signAndBroadcast
+  obtain ⟨T, K, hs⟩ := signTx_shape st i gas (feeOf gas q)
+  rw [hs]
+  apply h.retarget i { getSub st i with phase := .reqB K } _ [] []
+  · simp [setPhase, setSub, getSub]
+  · intro _ _; rfl
+  · simpa [setPhase, setSub, waitingLock] using f1
+  · intro _ _; rfl
+  · simpa [setPhase, setSub] using f2
+  · intro _ _; rfl
+  · simpa [setPhase, setSub] using f3
+  · intro _; exact hacc
+  · intro _; exact h.lk i hacc
+  · intro j k tx hm
+    simp only [setPhase, setSub, List.mem_append, List.mem_singleton] at hm
+    rcases hm with h1 | h1
+    · exact Or.inl h1
+    · cases h1; exact Or.inr ⟨rfl, h.lk i hacc⟩
+
+theorem W.failCS' {P} {st : St} (h : W P st [] []) (i : Nat) (r : Res)
+    (h1 : waitingLock (getSub st i).phase = false) (h2 : (getSub st i).phase ≠ .waitChain)
+    (h3 : (getSub st i).phase ≠ .waitAcct) : W P (failCS st i r) [] [] :=
+  (h.fin st i r [] [] (h.frameFree i h1 h2 h3 st rfl rfl rfl rfl rfl)).rel
+
+theorem W.csFree {P} {st : St} (h : W P st [] []) (i : Nat) (stm : St)
+    (h1 : waitingLock (getSub st i).phase = false) (h2 : (getSub st i).phase ≠ .waitChain)
+    (h3 : (getSub st i).phase ≠ .waitAcct) (hacc : (getSub st i).acc = none)
+    (hs : stm.subs = st.subs) (he : stm.events = st.events)
+    (hl : stm.lockQ = st.lockQ) (hc : stm.chain.waiters = st.chain.waiters)
+    (ha : stm.acct.waiters = st.acct.waiters) : W P (csLoop stm i) [] [] :=
+  h.cs stm i [] [] (h.frameFree i h1 h2 h3 stm hs he hl hc ha) hacc
+
+theorem W.onP {P} {st : St} (h : W P st [] []) (i : Nat) (a : Ans) (hp : (getSub st i).phase = .reqP) :
+    W P (ansP st i a) [] [] := by
+  have hacc := h.an i (by rw [hp]; rfl)
+  unfold ansP
+  split
+  · exact h.sab i _ _ (by rw [hp]; rfl) (by rw [hp]; simp) (by rw [hp]; simp) hacc
+  · exact h.failCS' i _ (by rw [hp]; rfl) (by rw [hp]; simp) (by rw [hp]; simp)
+
+theorem W.onE {P} {st : St} (h : W P st [] []) (i k : Nat) (a : Ans) (hp : (getSub st i).phase = .reqE k) :
+    W P (ansE st i a) [] [] := by
+  have hacc := h.an i (by rw [hp]; rfl)
+  have g1 : waitingLock (getSub st i).phase = false := by rw [hp]; rfl
+  have g2 : (getSub st i).phase ≠ .waitChain := by rw [hp]; simp
+  have g3 : (getSub st i).phase ≠ .waitAcct := by rw [hp]; simp
+  unfold ansE
+  split
+  · exact h.sab i _ _ g1 g2 g3 hacc
+  · exact h.csFree i _ g1 g2 g3 hacc rfl rfl rfl rfl rfl
+  · exact h.failCS' i _ g1 g2 g3
+  · exact h.failCS' i _ g1 g2 g3
+
+theorem W.onAccept {P} {st : St} (h : W P st [] []) (i k : Nat) (hp : (getSub st i).phase = .reqB k) :
+    W P (accept st i k) [] [] := by
+  obtain ⟨f1, f2, f3⟩ := h.freeOf i (by rw [hp]; rfl) (by rw [hp]; simp) (by rw [hp]; simp)
+  unfold accept
+  simp only []
+  apply W.rel
+  apply h.retarget i _ _ [] [] rfl
+  · intro _ _; rfl
+  · simpa [setSub, waitingLock] using f1
+  · intro _ _; rfl
+  · simpa [setSub] using f2
+  · intro _ _; rfl
+  · simpa [setSub] using f3
+  · intro hpre; simp [preAccept] at hpre
+  · intro hn; simp at hn
+  · intro j k' tx hm; exact Or.inl hm
+
+theorem W.onB {P} {st : St} (h : W P st [] []) (i k : Nat) (a : Ans) (hp : (getSub st i).phase = .reqB k) :
+    W P (ansB st i k a) [] [] := by
+  have hacc := h.an i (by rw [hp]; rfl)
+  have g1 : waitingLock (getSub st i).phase = false := by rw [hp]; rfl
+  have g2 : (getSub st i).phase ≠ .waitChain := by rw [hp]; simp
+  have g3 : (getSub st i).phase ≠ .waitAcct := by rw [hp]; simp
+  unfold ansB
+  split
+  · exact h.onAccept i k hp
+  · exact h.onAccept i k hp
+  · exact h.csFree i _ g1 g2 g3 hacc rfl rfl rfl rfl rfl
+  · exact h.failCS' i _ g1 g2 g3
+  · exact h.failCS' i _ g1 g2 g3
+  · exact h.failCS' i _ g1 g2 g3
+
+theorem W.setFree {P} {st : St} (h : W P st [] []) (i : Nat) (p : Phase)
+    (h1 : waitingLock (getSub st i).phase = false) (h2 : (getSub st i).phase ≠ .waitChain)
+    (h3 : (getSub st i).phase ≠ .waitAcct)
+    (p1 : waitingLock p = false) (p2 : p ≠ .waitChain) (p3 : p ≠ .waitAcct) (p4 : preAccept p = false) :
+    W P (setPhase st i p) [] [] := by
+  obtain ⟨f1, f2, f3⟩ := h.freeOf i h1 h2 h3
+  apply h.retarget i { getSub st i with phase := p } _ [] [] rfl
+  · intro _ _; rfl
+  · simpa [setPhase, setSub, p1] using f1
+  · intro _ _; rfl
+  · simpa [setPhase, setSub, p2] using f2
+  · intro _ _; rfl
+  · simpa [setPhase, setSub, p3] using f3
+  · intro hpre; simp [p4] at hpre
+  · intro hn; exact h.lk i hn
+  · intro j k tx hm; exact Or.inl hm
+
+theorem W.onT {P} {st : St} (h : W P st [] []) (i : Nat) (a : Ans) (hp : (getSub st i).phase = .reqT) :
+    W P (ansT st i a) [] [] := by
+  have g1 : waitingLock (getSub st i).phase = false := by rw [hp]; rfl
+  have g2 : (getSub st i).phase ≠ .waitChain := by rw [hp]; simp
+  have g3 : (getSub st i).phase ≠ .waitAcct := by rw [hp]; simp
+  have fr := h.frameFree i g1 g2 g3
+  obtain ⟨f1, f2, f3⟩ := h.freeOf i g1 g2 g3
+  unfold ansT
+  split
+  · exact h
+  · exact h.fin st i _ [] [] (fr st rfl rfl rfl rfl rfl)
+  · split
+    · exact h.fin st i _ [] [] (fr st rfl rfl rfl rfl rfl)
+    · split
+      · exact h.fin _ i _ [] [] (fr _ rfl rfl rfl rfl rfl)
+      · rename_i c _ _ _ _
+        apply h.retarget i { getSub st i with phase := .waitRollback c } _ [] []
+        · simp [setPhase, setSub, getSub]
+        · intro j hj
+          have : List.count j [i] = 0 := by simp [List.count_singleton]; exact fun e => hj e.symm
+          simp [setPhase, setSub, List.count_append, this]
+        · simp [setPhase, setSub, List.count_append, f1, waitingLock]
+        · intro _ _; rfl
+        · simpa [setPhase, setSub] using f2
+        · intro _ _; rfl
+        · simpa [setPhase, setSub] using f3
+        · intro hpre; simp [preAccept] at hpre
+        · intro hn; exact h.lk i hn
+        · intro j k tx hm; exact Or.inl (by simpa [setPhase, setSub] using hm)
+  · exact h.setFree i _ g1 g2 g3 rfl (by simp) (by simp) rfl
+  · exact h.setFree i _ g1 g2 g3 rfl (by simp) (by simp) rfl
+  · exact h.fin st i _ [] [] (fr st rfl rfl rfl rfl rfl)
+
+theorem W.onRB {P} {st : St} (h : W P st [] []) (i : Nat) (nf : Bool) (a : Ans)
+    (hp : (getSub st i).phase = .reqRB nf) : W P (ansRB st i nf a) [] [] := by
+  have g1 : waitingLock (getSub st i).phase = false := by rw [hp]; rfl
+  have g2 : (getSub st i).phase ≠ .waitChain := by rw [hp]; simp
+  have g3 : (getSub st i).phase ≠ .waitAcct := by rw [hp]; simp
+  unfold ansRB
+  split
+  · exact h.setFree i _ g1 g2 g3 rfl (by simp) (by simp) rfl
+  · exact h.fin st i _ [] [] (h.frameFree i g1 g2 g3 st rfl rfl rfl rfl rfl)
+
+theorem W.onAnswer {P} {st : St} (h : W P st [] []) (i : Nat) (a : Ans) : W P (answer st i a) [] [] := by
+  unfold answer
+  split
+  · rename_i hp; exact h.onL i a hp
+  · rename_i hp; exact h.onG i a hp
+  · rename_i hp; exact h.onP i a hp
+  · rename_i k hp; exact h.onE i k a hp
+  · rename_i k hp; exact h.onB i k a hp
+  · rename_i hp; exact h.onT i a hp
+  · rename_i nf hp; exact h.onRB i nf a hp
+  · exact h
+
+theorem W.onStart {P} {st : St} (h : W P st [] []) (i : Nat) (gl gp : Option Nat) :
+    W P (if (getSub st i).phase = .idle then enterChain (setSub st i { gl := gl, gp := gp }) i else st) [] [] := by
+  split
+  · rename_i hp
+    have g1 : waitingLock (getSub st i).phase = false := by rw [hp]; rfl
+    have g2 : (getSub st i).phase ≠ .waitChain := by rw [hp]; simp
+    have g3 : (getSub st i).phase ≠ .waitAcct := by rw [hp]; simp
+    obtain ⟨f1, f2, f3⟩ := h.freeOf i g1 g2 g3
+    have hacc := h.an i (by rw [hp]; rfl)
+    have h' : W P (setSub st i { gl := gl, gp := gp }) [] [] := by
+      apply h.retarget i { gl := gl, gp := gp } _ [] [] rfl
+      · intro _ _; rfl
+      · simpa [setSub, waitingLock] using f1
+      · intro _ _; rfl
+      · simpa [setSub] using f2
+      · intro _ _; rfl
+      · simpa [setSub] using f3
+      · intro _; rfl
+      · intro _; exact h.lk i hacc
+      · intro j k tx hm; exact Or.inl hm
+    have hph : (getSub (setSub st i { gl := gl, gp := gp }) i).phase = .idle := by simp
+    apply h'.chainEnter _ i [] [] (h'.frameFree i (by rw [hph]; rfl) (by rw [hph]; simp) (by rw [hph]; simp) _ rfl rfl rfl rfl rfl)
+    simp
+  · exact h
+
+/-- the structural invariant of reachable states -/
+def WF (st : St) : Prop := W (fun _ => True) st [] []
+
+theorem W.weaken {P st cw aw} (h : W P st cw aw) : W (fun _ => True) st cw aw :=
+  ⟨h.lq, h.cq, h.aq, h.an, fun _ _ _ _ => trivial, fun _ _ => trivial⟩
+
+theorem wf_init : WF {} := by
+  refine ⟨?_, ?_, ?_, ?_, ?_, ?_⟩ <;> intro j <;> simp [getSub, List.lookup, waitingLock]
+
+/-- one step from a well-formed state: well-formed again, and every signature of the step was made
+    for a submission that had no accepted broadcast before the step -/
+theorem w_step {st : St} (h : WF st) (op : Op) :
+    W (fun j => (getSub st j).acc = none) (step st op) [] [] := by
+  have h0 : W (fun j => (getSub st j).acc = none) { st with events := [] } [] [] :=
+    ⟨h.lq, h.cq, h.aq, h.an, fun _ _ _ hm => by simp at hm, fun _ hn => hn⟩
+  cases op with
+  | start i gl gp => exact h0.onStart i gl gp
+  | ans i a => exact h0.onAnswer i a
+
+theorem wf_run (ops : List Op) : WF (run {} ops) := by
+  suffices h : ∀ st, WF st → WF (run st ops) from h {} wf_init
+  induction ops with
+  | nil => intro st h; exact h
+  | cons op ops ih => intro st h; exact ih _ (w_step h op).weaken
+
+/-! ## what is pending is what was signed -/
+
+/-- id of the last transaction signed for submission `j` among the events -/
+def lastSign (j : Nat) : List Event → Option Nat
+  | [] => none
+  | .sign i k _ :: r => match lastSign j r with
+    | some k' => some k'
+    | none => if i = j then some k else none
+  | .finished _ _ :: r => lastSign j r
+
+theorem lastSign_append_sign (j i k : Nat) (tx : Tx) (es : List Event) :
+    lastSign j (es ++ [.sign i k tx]) = if i = j then some k else lastSign j es := by
+  induction es with
+  | nil => simp [lastSign]
+  | cons e es ih =>
+    cases e with
+    | sign i' k' tx' =>
+      simp only [List.cons_append, lastSign, ih]
+      by_cases h : i = j <;> simp [h]
+    | finished i' r => simpa [lastSign] using ih
+
+theorem lastSign_append_finished (j i : Nat) (r : Res) (es : List Event) :
+    lastSign j (es ++ [.finished i r]) = lastSign j es := by
+  induction es with
+  | nil => simp [lastSign]
+  | cons e es ih =>
+    cases e with
+    | sign i' k' tx' => simp only [List.cons_append, lastSign, ih]
+    | finished i' r' => simpa [lastSign] using ih
+
+def isTxReq (p : Phase) (k : Nat) : Prop := p = .reqB k ∨ p = .reqE k
+
+/-- a submission whose pending request carries transaction `k` (broadcast or simulation inside
+    the critical section) either signed `k` last in this step, or has signed nothing in this step
+    and had the same request pending before it -/
+def PB (st0 st : St) : Prop :=
+  ∀ j k, isTxReq (getSub st j).phase k →
+    lastSign j st.events = some k ∨
+    (lastSign j st.events = none ∧ (getSub st0 j).phase = (getSub st j).phase)
+
+theorem pb_init (st : St) (he : st.events = []) : PB st st := by
+  intro j k _; right; simp [he, lastSign]
+
+theorem PB.congr {st0 st st' : St} (h : PB st0 st) (hs : st'.subs = st.subs) (he : st'.events = st.events) :
+    PB st0 st' := by
+  intro j k hp
+  have hg : getSub st' j = getSub st j := by simp [getSub, hs]
+  rw [hg] at hp ⊢; rw [he]; exact h j k hp
+
+theorem PB.setP {st0 st : St} (h : PB st0 st) (i : Nat) (p : Phase)
+    (hp : ∀ k, ¬ isTxReq p k) : PB st0 (setPhase st i p) := by
+  intro j k hj
+  simp only [setPhase, getSub_setSub] at hj ⊢
+  by_cases e : j = i
+  · subst e; simp at hj; exact absurd hj (hp k)
+  · simp only [e, ↓reduceIte] at hj ⊢
+    exact h j k hj
+
+theorem PB.fin {st0 st : St} (h : PB st0 st) (i : Nat) (r : Res) : PB st0 (finish st i r) := by
+  have h1 := h.setP i (.done r) (by intro k hk; rcases hk with hk | hk <;> cases hk)
+  intro j k hj
+  have := h1 j k (by simpa [finish, emit, getSub] using hj)
+  simpa [finish, emit, getSub, lastSign_append_finished] using this
+
+theorem PB.signSet {st0 st : St} (h : PB st0 st) (i gas fee : Nat) (mk : Nat → Phase)
+    (hmk : ∀ K k, isTxReq (mk K) k → k = K) :
+    PB st0 (setPhase (signTx st i gas fee).1 i (mk (signTx st i gas fee).2)) := by
+  obtain ⟨T, K, hs⟩ := signTx_shape st i gas fee
+  rw [hs]
+  intro j k hj
+  simp only [setPhase, getSub_setSub] at hj ⊢
+  by_cases e : j = i
+  · subst e
+    simp only [↓reduceIte] at hj
+    left
+    have := hmk K k hj
+    subst this
+    simp [setSub, lastSign_append_sign]
+  · simp only [e, ↓reduceIte] at hj ⊢
+    have hg : getSub { st with txs := T, events := st.events ++ [.sign i K ⟨i, st.seq, gas, fee⟩] } j = getSub st j := rfl
+    rw [hg] at hj ⊢
+    have := h j k hj
+    have hne : ¬ i = j := fun x => e x.symm
+    simpa [setSub, lastSign_append_sign, hne] using this
+
+theorem PB.sab {st0 st : St} (h : PB st0 st) (i gas q : Nat) : PB st0 (signAndBroadcast st i gas q) := by
+  unfold signAndBroadcast
+  exact h.signSet i gas _ Phase.reqB (by intro K k hk; rcases hk with hk | hk <;> cases hk <;> rfl)
+
+theorem PB.cs {st0 st : St} (h : PB st0 st) (i : Nat) : PB st0 (csLoop st i) := by
+  unfold csLoop
+  simp only []
+  split
+  · exact h.sab i _ _
+  · exact h.setP i _ (by intro k hk; rcases hk with hk | hk <;> cases hk)
+  · exact h.signSet i 0 1 Phase.reqE (by intro K k hk; rcases hk with hk | hk <;> cases hk <;> rfl)
+
+theorem PB.relLock {st0} (fuel : Nat) {st : St} (h : PB st0 st) : PB st0 (releaseLock fuel st) := by
+  induction fuel generalizing st with
+  | zero => exact h.congr rfl rfl
+  | succ fuel ih =>
+    unfold releaseLock
+    split
+    · exact h.congr rfl rfl
+    · simp only []
+      split
+      · rename_i j q _ _ _ _
+        exact ih (PB.fin (st := { st with lockHeld := some j, lockQ := q, seq := _ }) (h.congr rfl rfl) _ _)
+      · rename_i j q _ _ _
+        exact PB.cs (st := { st with lockHeld := some j, lockQ := q }) (h.congr rfl rfl) _
+
+theorem PB.rel {st0 st : St} (h : PB st0 st) : PB st0 (release st) := h.relLock _
+
+theorem PB.fail {st0 st : St} (h : PB st0 st) (i : Nat) (r : Res) : PB st0 (failCS st i r) :=
+  (h.fin i r).rel
+
+theorem PB.lck {st0 st : St} (h : PB st0 st) (i : Nat) : PB st0 (enterLock st i) := by
+  unfold enterLock
+  split
+  · exact PB.cs (st := { st with lockHeld := some i }) (h.congr rfl rfl) i
+  · exact PB.setP (st := { st with lockQ := st.lockQ ++ [i] }) (h.congr rfl rfl) i _
+      (by intro k hk; rcases hk with hk | hk <;> cases hk)
+
+theorem PB.act {st0 st : St} (h : PB st0 st) (i : Nat) : PB st0 (enterAcct st i) := by
+  unfold enterAcct
+  split
+  · exact h.lck i
+  · split
+    · exact PB.setP (h.congr rfl rfl) i _
+        (by intro k hk; rcases hk with hk | hk <;> cases hk)
+    · exact PB.setP (h.congr rfl rfl) i _
+        (by intro k hk; rcases hk with hk | hk <;> cases hk)
+
+theorem PB.chn {st0 st : St} (h : PB st0 st) (i : Nat) : PB st0 (enterChain st i) := by
+  unfold enterChain
+  split
+  · exact h.act i
+  · split
+    · exact PB.setP (h.congr rfl rfl) i _
+        (by intro k hk; rcases hk with hk | hk <;> cases hk)
+    · exact PB.setP (h.congr rfl rfl) i _
+        (by intro k hk; rcases hk with hk | hk <;> cases hk)
+
+theorem PB.fold {st0} (f : St → Nat → St) (hf : ∀ st i, PB st0 st → PB st0 (f st i))
+    (ws : List Nat) {st : St} (h : PB st0 st) : PB st0 (ws.foldl f st) := by
+  induction ws generalizing st with
+  | nil => exact h
+  | cons w ws ih => exact ih (hf _ _ h)
+
+theorem noTx {p : Phase} (h : ∀ k, p ≠ .reqB k ∧ p ≠ .reqE k) : ∀ k, ¬ isTxReq p k := by
+  intro k hk; rcases hk with hk | hk
+  · exact (h k).1 hk
+  · exact (h k).2 hk
+
+theorem PB.ans {st0 st : St} (h : PB st0 st) (i : Nat) (a : Ans) : PB st0 (answer st i a) := by
+  unfold answer
+  split
+  · unfold ansL
+    split
+    · exact PB.fold _ (fun _ _ h => h.act _) _ (PB.act (st := { st with chain := { ready := true, busy := false, waiters := [] } }) (h.congr rfl rfl) i)
+    · simp only []
+      have hf := h.fin i .tonic
+      split
+      · exact hf.congr rfl rfl
+      · exact PB.setP (hf.congr rfl rfl) _ .reqL (noTx (by simp))
+  · unfold ansG
+    split
+    · rename_i n
+      exact PB.fold _ (fun _ _ h => h.lck _) _ (PB.lck (st := { st with seq := n, acct := { ready := true, busy := false, waiters := [] } }) (h.congr rfl rfl) i)
+    · simp only []
+      have hf := h.fin i .tonic
+      split
+      · exact hf.congr rfl rfl
+      · exact PB.setP (hf.congr rfl rfl) _ .reqG (noTx (by simp))
+  · unfold ansP
+    split
+    · exact h.sab i _ _
+    · exact h.fail i _
+  · unfold ansE
+    split
+    · exact h.sab i _ _
+    · rename_i n
+      exact PB.cs (st := { st with seq := n }) (h.congr rfl rfl) i
+    · exact h.fail i _
+    · exact h.fail i _
+  · rename_i kk _
+    unfold ansB
+    have hacc : PB st0 (accept st i kk) := by
+      unfold accept
+      simp only []
+      apply PB.rel
+      intro j k hj
+      simp only [getSub_setSub] at hj ⊢
+      by_cases e : j = i
+      · subst e; simp at hj; rcases hj with hj | hj <;> cases hj
+      · simp only [e, ↓reduceIte] at hj ⊢
+        exact h j k hj
+    split
+    · exact hacc
+    · exact hacc
+    · rename_i n
+      exact PB.cs (st := { st with seq := n }) (h.congr rfl rfl) i
+    · exact h.fail i _
+    · exact h.fail i _
+    · exact h.fail i _
+  · unfold ansT
+    split
+    · exact h
+    · exact h.fin i _
+    · split
+      · exact h.fin i _
+      · split
+        · exact PB.fin (h.congr rfl rfl) i _
+        · exact PB.setP (h.congr rfl rfl) i _ (noTx (by simp))
+    · exact h.setP i _ (noTx (by simp))
+    · exact h.setP i _ (noTx (by simp))
+    · exact h.fin i _
+  · unfold ansRB
+    split
+    · exact h.setP i _ (noTx (by simp))
+    · exact h.fin i _
+  · exact h
+
+/-- **what is pending at the node inside the critical section is what was just signed**: after
+    any step, a submission whose pending broadcast / simulation carries transaction `k` either
+    signed `k` as its last signature of this step, or signed nothing in this step and had that very
+    request pending before the step -/
+theorem pb_step (st : St) (op : Op) : PB st (step st op) := by
+  have h0 : PB st { st with events := [] } := by
+    intro j k _; right; exact ⟨rfl, rfl⟩
+  unfold step
+  cases op with
+  | start i gl gp =>
+    simp only []
+    split
+    · apply PB.chn
+      intro j k hj
+      simp only [getSub_setSub] at hj ⊢
+      by_cases e : j = i
+      · subst e; simp at hj; rcases hj with hj | hj <;> cases hj
+      · simp only [e, ↓reduceIte] at hj ⊢
+        exact h0 j k hj
+    · exact h0
+  | ans i a => exact h0.ans i a
+
 /-! ## `extract_sequence` -/
 
 theorem isPrefixOf_append_of_le (pat l r : List Char) (h : pat.length ≤ l.length) :
